@@ -280,29 +280,33 @@ func c14Prop(rt *rapid.T, rec *ev.Recorder) {
 			}
 		}
 		if k == kBridge && rapid.Bool().Draw(rt, "secondInconsistencyAfterTheHaltWasCleared") {
-			// the chain the node follows is inconsistent again: the next deposit is ahead of the stored count. The node must
-			// notice this one like the first. (Not generated: a gap of exactly as many deposits as the clearing reorg removed -
-			// the tree keeps its cached index across a reorg, so that particular gap goes unnoticed; observation O10.)
+			// the chain the node follows is inconsistent again: the next deposit is ahead of the stored count - by 1..6, or by
+			// exactly as many deposits as the clearing reorg removed (the gap the tree's cached index used to hide, F11). The
+			// node must notice this one like the first.
 			before, after := worldOf(k, hist), worldOf(k, surv)
 			removed := before.nextDC - after.nextDC
 			gap := uint32(rapid.IntRange(1, 6).Draw(rt, "secondGap"))
-			if gap != removed {
-				tip := haltNum
-				if len(surv) > 0 && surv[len(surv)-1].Num >= tip {
-					tip = surv[len(surv)-1].Num
-				}
-				d := genBridge(rt)
-				d.BlockNum, d.BlockPos, d.DepositCount = tip+1, 0, after.nextDC+gap
-				bad := blkSpec{Num: tip + 1, Hash: common.BigToHash(big.NewInt(int64(tip) + 7777)), Evs: []evSpec{{Kind: "bridge", Bridge: &d}}}
-				if err := S.process(bad); !errors.Is(err, aggkitsync.ErrInconsistentState) {
-					fatal(rt, "[%s] after the halt was cleared by Reorg(%d), a deposit with count %d arrives while the store expects %d (the halted block had %d valid deposits before its inconsistent one): ProcessBlock returned %v, want ErrInconsistentState", k, pt, after.nextDC+gap, after.nextDC, countKind(hb.Evs, "bridge")-1, err)
-				}
-				if !halted() {
-					fatal(rt, "[%s] a second inconsistency (deposit count %d, expected %d) was reported but the syncer is not halted", k, after.nextDC+gap, after.nextDC)
-				}
-				rec.Class("second_inconsistency_after_a_cleared_halt")
-				break
+			if removed > 0 && rapid.Bool().Draw(rt, "secondGapAsLargeAsWhatTheReorgRemoved") {
+				gap = removed
 			}
+			tip := haltNum
+			if len(surv) > 0 && surv[len(surv)-1].Num >= tip {
+				tip = surv[len(surv)-1].Num
+			}
+			d := genBridge(rt)
+			d.BlockNum, d.BlockPos, d.DepositCount = tip+1, 0, after.nextDC+gap
+			bad := blkSpec{Num: tip + 1, Hash: common.BigToHash(big.NewInt(int64(tip) + 7777)), Evs: []evSpec{{Kind: "bridge", Bridge: &d}}}
+			if err := S.process(bad); !errors.Is(err, aggkitsync.ErrInconsistentState) {
+				fatal(rt, "[%s] after the halt was cleared by Reorg(%d) (which removed %d deposits), a deposit with count %d arrives while the store holds %d (the halted block had %d valid deposits before its inconsistent one): ProcessBlock returned %v, want ErrInconsistentState", k, pt, removed, after.nextDC+gap, after.nextDC, countKind(hb.Evs, "bridge")-1, err)
+			}
+			if !halted() {
+				fatal(rt, "[%s] a second inconsistency (deposit count %d, expected %d) was reported but the syncer is not halted", k, after.nextDC+gap, after.nextDC)
+			}
+			rec.Class("second_inconsistency_after_a_cleared_halt")
+			if gap == removed {
+				rec.Class("second_gap_as_large_as_what_the_clearing_reorg_removed")
+			}
+			break
 		}
 		for _, b := range genHistory(rt, k, surv, 2, opts) {
 			if err := S.process(b); err != nil {
